@@ -56,6 +56,9 @@ def gen_ops(rng, kind, init, n):
             if r < 0.30:
                 ops.append(["udefine", rng.choice(["length", "time", "mass", "speed", "energy", "number"]),
                             pick_name() or fr("n"), pick_sym() or fr("s")])
+            elif r < 0.36:
+                # a scale (unit + zero point): the zero point well-formed, not a quantity at all, or of another dimension
+                ops.append(["uscale", rng.choice(["temperature", "length", "time"]), pick_name() or fr("n"), pick_sym() or fr("s"), rng.choice(["ok", "number", "otherdim", "number"])])
             elif r < 0.65:
                 ops.append(["ualias", rng.randrange(nobj), pick_name(), pick_sym()])
             elif r < 0.80:
@@ -109,6 +112,7 @@ def model_op(kind, op, rec, known_objs):
     k = op[0]
     spaced = lambda s: "true" if (s is not None and " " in s) else "false"
     if k == "udefine": return ("New", None, op[2], op[3], spaced(op[3]))
+    if k == "uscale": return "mustfail" if op[4] == "number" else ("New", None, op[2], op[3], spaced(op[3]))
     if k in ("ualias", "uderive"): return ("Name", op[1], op[2], op[3], spaced(op[3]))
     if k == "uresolve":
         if "err" in rec: return "skip"
@@ -172,12 +176,12 @@ def main():
                     if changed or d["count"] != cnt_before:
                         c.violation(f"nonatomic:{kind}:{op[0]}", f"{op} raised {rec['err']} but changed the registries: {json.dumps(d)[:300]}",
                                     {"kind": kind, "ops": ops[:i + 1]})
-                    if rec["err"] != "ValueError" and not (op[0] in ("uanon", "danon")):
+                    if rec["err"] != "ValueError" and not (op[0] in ("uanon", "danon")) and not (op[0] == "uscale" and op[4] == "number" and rec["err"] == "TypeError"):
                         c.violation(f"errclass:{kind}:{op[0]}:{rec['err']}", f"{op} raised {rec['err']}: {rec.get('msg')}",
                                     {"kind": kind, "ops": ops[:i + 1]})
                 else:
-                    nm_decl = op[2] if op[0] in ("udefine", "ualias", "uderive", "dderive") else (op[3] if op[0] == "pdecl" else (op[1] if op[0] == "ddefine" else None))
-                    sy_decl = op[3] if op[0] in ("udefine", "ualias", "uderive") else (op[4] if op[0] == "pdecl" else None)
+                    nm_decl = op[2] if op[0] in ("udefine", "ualias", "uderive", "dderive", "uscale") else (op[3] if op[0] == "pdecl" else (op[1] if op[0] == "ddefine" else None))
+                    sy_decl = op[3] if op[0] in ("udefine", "ualias", "uderive", "uscale") else (op[4] if op[0] == "pdecl" else None)
                     if op[0] == "pdecl" and op[2] == 0: nm_decl = sy_decl = None
                     if nm_decl and nm_decl not in rec["reports"][0]:
                         c.violation(f"unreported:{kind}:{op[0]}", f"{op} succeeded but the object reports names {rec['reports'][0]}",
@@ -194,6 +198,10 @@ def main():
                                     {"kind": kind, "ops": ops[:i + 1], "diff": d})
                     if changed:
                         c.violation("identity-renamed", f"{op} changed the registries: {json.dumps(d)[:300]}", {"kind": kind, "ops": ops[:i + 1]})
+                    continue
+                if mo == "mustfail":
+                    if "err" not in rec:
+                        c.violation(f"accepted:{kind}:{op[0]}", f"{op} (a zero point that is not a quantity) did not raise", {"kind": kind, "ops": ops[:i + 1]})
                     continue
                 if mo is None:
                     break
